@@ -30,6 +30,9 @@ def gen_cases(tier):
     for v, lvl, m in triples():
         for k in kinds:
             yield ('triple', v, lvl, m, k)
+    for v in ('M1', 'M2', 'M3', 'M4', 1):
+        for lo in range(0, 1000 if tier == 'quick' else 10000, 100):
+            yield ('auto', v, lo)
     if tier == 'thorough':
         for v, lvl in T.all_version_levels():
             yield ('triple', v, lvl, None, 'full')
@@ -45,7 +48,35 @@ def pick_content(v, lvl, kind):
     raise AssertionError
 
 
+def auto_case(case, acc):
+    """automatic mask choice (incl. ties between candidates): what the format information announces must be what is in the symbol"""
+    _, v, lo = case
+    for x in range(lo, lo + 100):
+        content = str(x)
+        for lvl in T.levels_of(v)[:2]:
+            kw = {'version': v, 'boost_error': False}
+            if lvl is not None:
+                kw['error'] = lvl
+            try:
+                q = segno.make(content, **kw)
+            except ValueError:
+                continue
+            rep = C.read(q)
+            c2 = ('auto1', v, content, lvl)
+            acc.eval(c2, nontrivial=True, outcome=(rep.mask, rep.ok), state=(v, lvl, 'auto', rep.mask))
+            for p in rep.problems:
+                acc.violation('auto-mask/' + C.classify_problem(p), 'make(%r, **%r) -> %s: %s' % (content, kw, q.designator, p), c2)
+            for fam, msg in C.meta_problems(q, rep):
+                acc.violation(fam, msg, c2)
+            if rep.ok and rep.payload != content.encode():
+                acc.violation('payload', 'payload differs', c2)
+
+
 def run_case(case, acc):
+    if case[0] == 'auto':
+        return auto_case(case, acc)
+    if case[0] == 'auto1':
+        return auto_case(('auto', case[1], int(case[2])), acc)
     _, v, lvl, m, kind = case
     content, mode = pick_content(v, lvl, kind)
     try:
